@@ -41,6 +41,17 @@ func init() {
 		cfg.MaxDepth = 4
 		cfg.LayoutNoise = false
 		cs = append(cs, searchCases(r, st, sizes(tier, 300, 8000), cfg, 4, 18, "d")...)
+		// L5: the same kind of programs with the step sequence of the real VM loop fingerprinted (op trace)
+		tcfg := core
+		tcfg.NamedLoops = true
+		tcfg.Replace = true
+		tcfg.Amounts = true
+		tcfg.MultiCmd = true
+		for _, c := range searchCases(r, st, sizes(tier, 500, 12000), tcfg, 3, 14, "t") {
+			c.Op = "trace"
+			cs = append(cs, c)
+		}
+		st.Features["trace-cases"] = sizes(tier, 500, 12000) * 3
 		return cs
 	}
 	propGens["C02"] = func(r *rand.Rand, tier string, st *Stats) []Case {
